@@ -27,20 +27,28 @@ CFG = {
     },
     "n": {"quick": 1500, "thorough": 60000},
     "exhaustive": {"quick": False, "thorough": True},
-    "rule": "corpus (17 hand-built + 25 sampled scenes); systematic grid: 10 payloads (benign, `endstream endobj xx`, LF endstream LF endobj LF, "
+    "rule": "corpus (17 hand-built + 25 sampled scenes + 35 wide-literal scenes); number tokens outside the i64 range (oracle Spec/FramingWide.lean + Spec/NumLit.lean: such a token is a Real "
+            "or, beyond i128, no object - as a declared length it is invalid, never reduced): per payload 48 literals k*2^64+t and -(k*2^64-t) whose low 64 bits are the payload length "
+            "or a neighbour (k in 1,2,3,2^31,2^62,2^63-1,2^64,2^64+1; t in len,len+1,len-1) + 27 boundary literals (+-(2^63-1), +-2^63, -2^63-1, 2^63+len, +-(2^64-1), +-2^64, +-(2^32+len), +-10^19, +-10^30, "
+            "+-(2^127-1), +-2^127, 2^128+len, 10^39) x {direct (plain / `+` / leading zeros / `-`), value of the object referenced by /Length (defined before), forward reference then re-parse}, "
+            "all with valid framing so that the verdict depends on the length alone; plus numbers above 2^63-1 as object number / generation of the reference and of the `n g obj` header "
+            "(quick: 4 payloads, thorough: 10); systematic grid: 10 payloads (benign, `endstream endobj xx`, LF endstream LF endobj LF, "
             "an embedded complete stream object, binary with CR LF at both edges, empty, CR, ...) x declared length in {=, +1, +2, +1000, 2^63-1, -1, -n, n-1, 2, 0} "
             "x 6 spellings after `stream` (LF, CRLF, CR, none, SP LF, LF CR) x 7 before `endstream` (none, CR, LF, CRLF, SP, LF LF, CR CR) "
             "x {direct, backward reference, forward reference then re-parse} (thorough: full grid; quick: every 5th point plus half of the all-valid sub-grid); "
-            "random scenes of 1-4 indirect objects over 4 identifiers (streams with direct/referenced/missing/non-integer lengths, escaped `/Len#67th` keys, "
+            "random scenes of 1-4 indirect objects over 4 identifiers (streams with direct/referenced/missing/non-integer lengths, one direct length in five and one length target in five written as 2^64+len / 2^126-len, escaped `/Len#67th` keys, "
             "4x4 extra dictionary entries in 3 orders, 9 whitespace/comment spellings per gap, defective endstream/endobj keywords; plain objects as length targets; "
             "identifier collisions), each followed by a one-byte mutation / deletion / insertion / truncation of its text (raw case). "
             "non-trivial = a stream whose payload contains endstream/endobj or begins/ends with CR/LF, or whose declared length differs from the payload length, "
-            "or is negative, by reference, missing or not an integer; raw: the mutated text still contains `stream` (distinct by case hash)",
+            "or is negative, by reference, missing or not an integer, or any object with a number written outside the i64 range; raw: the mutated text still contains `stream` (distinct by case hash)",
     "trusted_base": COMMON_TB + [
         "modelled, not verified: ParseBuffer primitives (peek/exact/check_prefix/extract/set_cursor_unsafe) as list functions on a whole buffer (views: C17); "
         "BTreeMap<ObjectId,_> insert/get as a sorted association list with the lexicographic order of (usize,usize); Rc sharing ignored",
         "reused, proved elsewhere: token-parser and object-parser models (Model/Prim, Model/Obj; C15 LocOK, C16 parseObjB_good)",
         "64-bit usize: i64 -> usize conversion succeeds iff the value is >= 0",
+        "oracle of the wide-literal scenes: Spec/FramingWide.lean over Spec/NumLit.lean (what a point-free number token denotes); the model is proved to compute NumLit.denote on "
+        "every number token (Parsley.C02.number_token_denotes, checked under C02); on scenes written inside the i64 range the judge checks at run time that this oracle and the original "
+        "Framing.expectScene agree (class `oracle-disagreement`)",
     ],
     "assumptions": [
         "the buffer is an unrestricted ParseBuffer and the cursor is inside it; the context satisfies cur_depth <= max_depth and its map is a BTreeMap (sorted)",
